@@ -32,6 +32,7 @@ TU = r'''
 #include "mp/utils-math.h"
 namespace c07tu {
 double u7(double v, int d) { return mp::round_to_digits(v, d); }
+bool u8(const mp::VarInfoStatic& x, int i) { return x.is_at_lb(i) && x.is_at_ub(i) && x.is_nonzero(i) && x.is_positive(i) && x.bounds_viol(i) > 0; }
 using VI = mp::VarInfoStatic;
 mp::Violation u1(const mp::LinConRange& c, const VI& x) { return c.ComputeViolation(x, false); }
 mp::Violation u3(const mp::AbsConstraint& c, const VI& x) { return c.ComputeViolation(x); }
@@ -249,7 +250,13 @@ class Sym:
             nm = callee.get('referencedDecl', {}).get('name')
             if nm == 'operator[]':
                 idx = strip(e['inner'][2])
-                key = 'x[%s]' % (idx.get('referencedDecl', {}).get('name') or idx.get('name') or '?')
+                base = strip(e['inner'][1])
+                if base.get('kind') == 'UnaryOperator' and base.get('opcode') == '*' and strip(base['inner'][0]).get('kind') == 'CXXThisExpr':
+                    bname = 'this'
+                else:
+                    bname = base.get('name') or base.get('referencedDecl', {}).get('name') or '?'
+                # the abstracted operand is named by the indexed object AND the index: (*this)[i], lb_[i], ub_[i], x_[i] differ
+                key = '%s[%s]' % (bname, idx.get('referencedDecl', {}).get('name') or idx.get('name') or '?')
                 return self.opaque(key, e), env, []
             raise TranslateError('operator call ' + str(nm))
         if k == 'BinaryOperator':
@@ -372,6 +379,8 @@ class Sym:
             return self.block(s.get('inner', []), env, cont)
         if k == 'NullStmt':
             return cont(env)
+        if k in ('CStyleCastExpr', 'CXXStaticCastExpr', 'ParenExpr') and qtype(s) == 'void':
+            return cont(env)          # assert(...) under NDEBUG: ((void)0)
         if k == 'DeclStmt':
             L = []
             env = dict(env)
@@ -786,6 +795,26 @@ def main(repo, out, work):
         raise TranslateError('round_to_digits<double> instantiation not found')
     parts.append(emit_def({'cxx': 'mp::round_to_digits<double> (utils-math.h)', 'lean': 'roundToDigits', 'ret': 'D',
                            'params': [('value', 'D'), ('digits', 'Int')]}, rd[0]))
+    # ---- 6c. VarInfoImpl<std::vector<double>>: is_at_lb / is_at_ub / is_nonzero / is_positive / bounds_viol (constr_keeper.h)
+    vi = {}
+    for d in dump('VarInfoImpl'):
+        for n, path in walk(d):
+            if n.get('kind') == 'CXXMethodDecl' and n.get('name') in ('is_at_lb', 'is_at_ub', 'is_nonzero', 'is_positive', 'bounds_viol') \
+                    and body_of(n) is not None and any(p.get('kind') == 'ClassTemplateSpecializationDecl' for p in path):
+                vi[n['name']] = n
+    for need in ('is_at_lb', 'is_at_ub', 'is_nonzero', 'is_positive', 'bounds_viol'):
+        if need not in vi:
+            raise TranslateError('VarInfoImpl<..>::%s instantiation not found' % need)
+    parts.append(emit_def({'cxx': 'mp::VarInfoImpl<VarVec>::is_at_lb (constr_keeper.h)', 'lean': 'isAtLb', 'ret': 'Bool',
+                           'params': [('xi', 'D'), ('lbi', 'D'), ('tol', 'D')], 'opaque': {'this[i]': 'xi', 'lb_[i]': 'lbi', 'feastol': 'tol'}}, vi['is_at_lb']))
+    parts.append(emit_def({'cxx': 'mp::VarInfoImpl<VarVec>::is_at_ub', 'lean': 'isAtUb', 'ret': 'Bool',
+                           'params': [('xi', 'D'), ('ubi', 'D'), ('tol', 'D')], 'opaque': {'this[i]': 'xi', 'ub_[i]': 'ubi', 'feastol': 'tol'}}, vi['is_at_ub']))
+    parts.append(emit_def({'cxx': 'mp::VarInfoImpl<VarVec>::is_nonzero', 'lean': 'isNonzero', 'ret': 'Bool',
+                           'params': [('xi', 'D'), ('isint', 'Bool'), ('tol', 'D')], 'opaque': {'this[i]': 'xi', 'is_var_int': 'isint', 'feastol': 'tol'}}, vi['is_nonzero']))
+    parts.append(emit_def({'cxx': 'mp::VarInfoImpl<VarVec>::is_positive', 'lean': 'isPositive', 'ret': 'Bool',
+                           'params': [('xi', 'D'), ('isint', 'Bool'), ('tol', 'D')], 'opaque': {'this[i]': 'xi', 'is_var_int': 'isint', 'feastol': 'tol'}}, vi['is_positive']))
+    parts.append(emit_def({'cxx': 'mp::VarInfoImpl<VarVec>::bounds_viol', 'lean': 'boundsViol', 'ret': 'D',
+                           'params': [('lbi', 'D'), ('xi', 'D'), ('ubi', 'D')], 'opaque': {'x_[i]': 'xi', 'lb_[i]': 'lbi', 'ub_[i]': 'ubi'}}, vi['bounds_viol']))
     # ---- 7. class selection in ComputeViolations
     fn, seq, idx = class_selection(D['ConstraintKeeper'])
     sym_spec = {'cxx': 'ConstraintKeeper<..>::ComputeViolations, lines `int c_class=0; ... if (c_class & chk.check_mode())` (constr_keeper.h)',
